@@ -794,6 +794,12 @@ silent("c18-s-tracer-repeated-inputs-guard-set-call", "C18", "funsor/ops/tracer.
        "    kwarg_ids = {id(v) for v in kwargs.values()}", "    kwarg_ids = set(id(v) for v in kwargs.values())")
 
 
+fire("c15-safe-inverse-table-points-to-plain-sub", "C15", BUILTIN, "SAFE_BINARY_INVERSES[add] = safesub", "SAFE_BINARY_INVERSES[add] = sub", "R15.9", "SAFE_BINARY_INVERSES")
+fire("c15-array-kernel-uses-float64-constant", "C15", ARRAY,
+     "    try:\n        finfo = np.finfo(y.dtype)\n    except ValueError:\n        finfo = np.iinfo(y.dtype)\n    return x * np.clip(np.reciprocal(y), None, finfo.max)",
+     "    import sys\n    return x * np.clip(np.reciprocal(y), None, sys.float_info.max)", "R15.9", "_safediv")
+
+
 # ===== derived variants: must stay at the END of this file (they enumerate every rename() variant above) =====
 # `if c: A else: B` -> `if not c: B else: A` in the anchor functions (behaviour-preserving)
 def invert(prop, file, qual):
